@@ -341,6 +341,10 @@ def quoter_stream(strs, quoters=gens.QUOTERS, unquoters=gens.UNQUOTERS):
 def quoter_strings(rng, tier, budget):
     strs = list(gens.strings_over(gens.CRIT, 4 if tier == "quick" else 5))
     strs += gens.all_ascii_singles() + gens.all_escapes() + gens.all_byte_escapes()
+    # every "%XY" over all printable ASCII pairs (exhaustive for the escape-recognition rule), plus a look-alike layer above U+00FF
+    pr = [chr(i) for i in range(0x20, 0x7F)]
+    strs += ["%" + a + b for a in pr for b in pr]
+    strs += ["%" + a + b for a in "4aF" for b in "\u0430\u0441\u0161\u0142\uff11\uff21\u0660\u00b2"] + ["%" + b + a for a in "4aF" for b in "\u0430\u0441\u0161\u0142\uff11\uff21\u0660\u00b2"]
     strs += [gens.rand_text(rng) for _ in range(int((4000 if tier == "quick" else 60000) * budget))]
     return strs
 
